@@ -11,6 +11,11 @@
 package main
 
 import (
+	"net/http"
+	"runtime"
+	"sync/atomic"
+	"sync"
+	"errors"
 	"bytes"
 	"context"
 	"encoding/json"
@@ -1016,6 +1021,90 @@ func runStreamOnce(tr *anthropic.Translator, rd io.Reader, limit time.Duration) 
 	}
 }
 
+// failingWriter: a client connection that dies after `ok` successful writes
+type failingWriter struct {
+	h  http.Header
+	ok int
+}
+
+func (w *failingWriter) Header() http.Header { return w.h }
+func (w *failingWriter) WriteHeader(int)     {}
+func (w *failingWriter) Write(p []byte) (int, error) {
+	if w.ok <= 0 {
+		return 0, errors.New("write tcp 127.0.0.1:1->127.0.0.1:2: write: broken pipe")
+	}
+	w.ok--
+	return len(p), nil
+}
+func (w *failingWriter) Flush() {}
+
+// sharedCase: ONE translator serves many clients.  First every completion is translated alone (the reference), then some
+// clients die mid-stream (their writes start failing), then all completions are translated at the same time, several
+// rounds.  What a client receives depends on its own completion only: the concurrent translation of each completion is
+// the one it got when it was alone.
+func (e *env) sharedCase(streams, rounds int) {
+	r := e.r
+	tr := anthropic.NewTranslator(vlib.QuietLogger(), config.AnthropicTranslatorConfig{Enabled: true, MaxMessageSize: 10 << 20})
+	type one struct {
+		sse string
+		ref []OutEv
+	}
+	all := make([]one, streams)
+	for i := range all {
+		comp := genCompletion(r, vlib.Pick(r, []int{0, 1, 2, 3}), 0)
+		// recognisable, and long enough that the streams really overlap
+		comp.segs = append([]Seg{{T: "text", Pieces: []string{fmt.Sprintf("client-%02d ", i), strings.Repeat(fmt.Sprintf("c%02d.", i), 40), " end"}}}, comp.segs...)
+		for j := range comp.segs {
+			if comp.segs[j].T == "call" {
+				comp.segs[j].Idx = j
+			}
+		}
+		lines := toLines(r, comp, renderOpts{roleFirst: true})
+		rd := &renderer{r: r, escMode: 1}
+		all[i].sse = renderSSE(rd, lines, sseOpts{sep: "\n\n", done: true})
+		res := runStreamOnce(tr, strings.NewReader(all[i].sse), 5*time.Second)
+		all[i].ref = res.events
+	}
+	// clients that go away mid-stream
+	for k := 0; k < 6; k++ {
+		w := &failingWriter{h: http.Header{}, ok: 1 + k%4}
+		func() {
+			defer func() { _ = recover() }()
+			_ = tr.TransformStreamingResponse(context.Background(), strings.NewReader(all[k%streams].sse), w, httptest.NewRequest("POST", "/olla/anthropic/v1/messages", nil))
+		}()
+	}
+	mism, first := 0, ""
+	var mu sync.Mutex
+	for rd := 0; rd < rounds; rd++ {
+		var wg sync.WaitGroup
+		var start int32
+		for i := range all {
+			wg.Add(1)
+			go func(i int) {
+				defer wg.Done()
+				for atomic.LoadInt32(&start) == 0 {
+					runtime.Gosched()
+				}
+				res := runStreamOnce(tr, iotest.OneByteReader(strings.NewReader(all[i].sse)), 10*time.Second)
+				if !sameEvents(res.events, all[i].ref) || res.err != "" || res.panic != "" || res.timeout {
+					mu.Lock()
+					mism++
+					if first == "" {
+						got, _ := json.Marshal(res.events)
+						want, _ := json.Marshal(all[i].ref)
+						first = fmt.Sprintf("round %d client %d (err '%s' panic '%s' timeout %v): alone it received %s; among %d concurrent clients %s", rd, i, res.err, res.panic, res.timeout, trunc(string(want), 500), streams, trunc(string(got), 500))
+					}
+					mu.Unlock()
+				}
+			}(i)
+		}
+		atomic.StoreInt32(&start, 1)
+		wg.Wait()
+	}
+	e.c.Emit(map[string]any{"kind": "shared", "streams": streams, "rounds": rounds, "impl": map[string]any{"mismatches": mism, "first": first}})
+	e.c.Count("shared-translator")
+}
+
 func sameEvents(a, b []OutEv) bool {
 	x, _ := json.Marshal(a)
 	y, _ := json.Marshal(b)
@@ -1472,6 +1561,10 @@ func main() {
 		}
 		e.c.Count("usage.mode" + strconv.Itoa(o.usageMode))
 	}
+
+	// ---- one translator, many clients at once, after some clients died mid-stream
+	e.sharedCase(8, map[bool]int{false: 30, true: 300}[e.thorough])
+	e.sharedCase(3, map[bool]int{false: 30, true: 300}[e.thorough])
 
 	// ---- arbitrary interleavings (totality clause)
 	ni := 1200
